@@ -58,6 +58,18 @@ def getFirst (m : Entries α β) (k : α) : Option (Option β) :=
 
 def getAll (m : Entries α β) (k : α) : List β := (lookup k m).getD []
 
+/-- `HeaderMap::get_mut(k)` followed by a store through the returned `&mut HeaderValue`
+(`Value::first_mut` is `&mut inner[0]`): overwrite the *first* value of `k` in place.  Result:
+`none` = key absent (map untouched), `some none` = PANIC (empty value list), `some (some old)`. -/
+def setFirst (m : Entries α β) (k : α) (v : β) : Entries α β × Option (Option β) :=
+  match lookup k m with
+  | none => (m, none)
+  | some [] => (m, some none)
+  | some (old :: vs) => (put k (v :: vs) m, some (some old))
+
+/-- `HeaderMap::keys`: one item per entry (the hash map's key iterator) -/
+def keys (m : Entries α β) : List α := m.map Prod.fst
+
 def containsKey (m : Entries α β) (k : α) : Bool := (lookup k m).isSome
 
 /-- `HeaderMap::len` = Σ value-list lengths -/
